@@ -184,14 +184,34 @@ def check_multi(ck, P="C36"):
     sets_ = ust
 
     # -- listening: each distinct child once
-    loops = [nd for nd in cfg.stmt_nodes(lambda nd: nd.kind == "for") if q.dotted(nd.ast.iter) == kids and isinstance(nd.ast.target, ast.Name)]
+    def _iter_kind(it):
+        """'all': the ordered child list; 'distinct': each distinct child once (dict.fromkeys / set of the children, the unfinished set)"""
+        if q.dotted(it) == kids:
+            return "all"
+        if q.dotted(it) == unfinished:
+            return "distinct"
+        if isinstance(it, ast.Call) and len(it.args) == 1 and q.dotted(it.args[0]) == kids and (q.dotted(it.func) in ("dict.fromkeys", "set", "frozenset")):
+            return "distinct"
+        return None
+
+    forloops = [nd for nd in cfg.stmt_nodes(lambda nd: nd.kind == "for") if isinstance(nd.ast.target, ast.Name)]
+    loops = [nd for nd in forloops if _iter_kind(nd.ast.iter) is not None]
     regs = own_find(mf, lambda x: isinstance(x, ast.Call) and q.call_attr(x) in ("future_add_done_callback", "add_future") and len(x.args) == 2 and q.dotted(x.args[1]) == cb.name)
     ck.floor(P + ".multi-listen", len(regs), 1, "registrations of the callback")
     facts = must_facts(cfg)
     for nd, c in regs:
         x = q.dotted(c.args[0])
         lp = [l for l in loops if l.ast.target.id == x and any(c is y for st in l.ast.body for y in ast.walk(st))]
+        if not lp:
+            inside_other = [l for l in forloops if any(c is y for st in l.ast.body for y in ast.walk(st))]
+            if inside_other:
+                raise AnalysisError("%s: the registration loop iterates over something that is not recognised as the children" % mf.site(inside_other[0].ast.iter))
         ck.ob(P + ".multi-listen", mf, c, len(lp) == 1, "the callback is registered inside the loop over all children, on the loop element")
+        if lp and _iter_kind(lp[0].ast.iter) == "distinct":
+            guards = [a for a in q.ancestors(q.parent_map(mf.node), c) if isinstance(a, ast.If)]
+            guards = [g for g in guards if any(g is y for st in lp[0].ast.body for y in ast.walk(st))]
+            ck.ob(P + ".multi-listen", mf, c, not guards, "iterating over the distinct children registers every one of them once (no further guard)")
+            continue
         # `x in S` is False on every path from the start of the iteration to the registration (whatever the control-flow
         # shape: nested if, `continue` guard, early return); the fact is only forgotten when x or S is re-bound — S.add(x)
         # in between is exactly what is expected
